@@ -69,6 +69,24 @@ impl Prop for C15 {
                 })
             }),
         ];
+        let nb = if tier == Tier::Quick { 5 } else { 6 };
+        v.push(Scope::new("rows-with-backslash", "rows over {\",\\,a,-,space} above a row of bars; only rows whose backslashes all lie outside the quoted regions and before no dangling quote are kept (the quantifier excludes a backslash inside quoted text)", move |f| {
+            enumr::strings_upto(&['"', '\\', 'a', '-', ' '], nb, &mut |s| {
+                if !s.contains(&'"') || !s.contains(&'\\') {
+                    return;
+                }
+                let pairs = refmodel::quote_pairs(s);
+                let nq = s.iter().filter(|c| **c == '"').count();
+                let last_quote = s.iter().rposition(|c| *c == '"').unwrap_or(0);
+                let ok = s.iter().enumerate().all(|(i, c)| {
+                    *c != '\\' || (!pairs.iter().any(|(a, b)| i > *a && i < *b) && !(nq % 2 == 1 && i > last_quote))
+                });
+                if ok {
+                    let row: String = s.iter().collect();
+                    f(Case::s(format!("{}\n{}", row, "|".repeat(s.len() + 1))));
+                }
+            })
+        }));
         if tier == Tier::Thorough {
             v.push(Scope::new("two-rows", "two rows, each over {\",a,一,|,space} up to length 5 with a quote in each", |f| {
                 let mut rows: Vec<String> = vec![];
